@@ -46,6 +46,7 @@ type Run struct {
 	Level    string // model_checking | exploration | fault_enumeration | ...
 	Tier     string
 	Seed     int
+	Part     string // "" or the name of a part: a second binary of the same check that merges into the evidence
 	Replay   string // --replay file, "" when exploring
 	Deadline time.Time
 
@@ -116,6 +117,14 @@ func Start(property, level string, budgetQuick, budgetThorough time.Duration) *R
 	}
 	r.Deadline = r.start.Add(b)
 	r.known = LoadKnown(filepath.Join(Root(), "KNOWN_FINDINGS.txt"))
+	return r
+}
+
+// StartPart is Start for a check made of several binaries run one after the other by the check's run.sh: a
+// non-empty part makes Finish merge this run's coverage into the evidence file the earlier part wrote.
+func StartPart(property, part, level string, budgetQuick, budgetThorough time.Duration) *Run {
+	r := Start(property, level, budgetQuick, budgetThorough)
+	r.Part = part
 	return r
 }
 
@@ -318,6 +327,9 @@ func (r *Run) Finish() {
 	}
 	nv := len(r.violations)
 	r.mu.Unlock()
+	if r.Replay == "" && r.Part != "" {
+		mergePart(doc, filepath.Join(Out(), "evidence", r.Property+".json"), r.Part)
+	}
 	if r.Replay == "" {
 		dir := filepath.Join(Out(), "evidence")
 		os.MkdirAll(dir, 0o755)
@@ -339,4 +351,75 @@ func (r *Run) Finish() {
 func Fatal(format string, a ...any) {
 	fmt.Fprintf(os.Stderr, "HARNESS-ERROR: "+format+"\n", a...)
 	os.Exit(2)
+}
+
+// mergePart folds the evidence written by an earlier part of the same check into doc (sums of the measured
+// counters, union of samples / caps / outcomes, exhaustive only if every part was).
+func mergePart(doc map[string]any, path, part string) {
+	raw, err := os.ReadFile(path)
+	if err != nil {
+		return
+	}
+	var old map[string]any
+	if json.Unmarshal(raw, &old) != nil || old["property_id"] != doc["property_id"] || old["tier"] != doc["tier"] {
+		return
+	}
+	oc, _ := old["coverage"].(map[string]any)
+	nc := doc["coverage"].(map[string]any)
+	num := func(v any) float64 {
+		switch x := v.(type) {
+		case float64:
+			return x
+		case int:
+			return float64(x)
+		case int64:
+			return float64(x)
+		}
+		return 0
+	}
+	for _, k := range []string{"evaluations", "states", "transitions", "traces_validated_against_impl", "distinct_nontrivial", "distinct_outcomes"} {
+		if _, ok := oc[k]; ok || nc[k] != nil {
+			nc[k] = int64(num(oc[k]) + num(nc[k]))
+		}
+	}
+	if e, ok := oc["exhaustive"].(bool); ok {
+		nc["exhaustive"] = e && nc["exhaustive"].(bool)
+	}
+	if s, ok := oc["samples"].([]any); ok {
+		ns, _ := nc["samples"].([]any)
+		nc["samples"] = append(s, ns...)
+	}
+	if s, ok := oc["caps_hit"].([]any); ok {
+		var ns []any
+		if x, ok := nc["caps_hit"].([]string); ok {
+			for _, c := range x {
+				ns = append(ns, c)
+			}
+		}
+		nc["caps_hit"] = append(s, ns...)
+	}
+	if s, ok := oc["rule"].(string); ok {
+		nc["rule"] = s + " || " + fmt.Sprint(nc["rule"])
+	}
+	for k, v := range oc {
+		if _, ok := nc[k]; !ok {
+			nc[k] = v
+		}
+	}
+	if a, ok := old["assumptions"].([]any); ok {
+		var na []any
+		switch x := doc["assumptions"].(type) {
+		case []string:
+			for _, c := range x {
+				na = append(na, c)
+			}
+		}
+		doc["assumptions"] = append(a, na...)
+	}
+	doc["wall_s"] = num(old["wall_s"]) + num(doc["wall_s"])
+	doc["violations"] = int(num(old["violations"]) + num(doc["violations"]))
+	nc["parts"] = fmt.Sprintf("%v + %s", oc["parts"], part)
+	if oc["parts"] == nil {
+		nc["parts"] = "main + " + part
+	}
 }
